@@ -19,11 +19,12 @@ def sp_for(opts=None, md=None, cache_key=None, config_class='sp'):
     world.install_inprocess_tool()
     clock.install()
     opts = opts or {}
-    key = (cache_key or repr(sorted((k, repr(v)) for k, v in opts.items())) + (md or '')) + '|' + config_class
+    key = (cache_key or repr(sorted((k, repr(v)) for k, v in opts.items())) + ('<none>' if md == '' else (md or ''))) + '|' + config_class
     if key not in _sps:
         spec = dict(world.DEFAULT_SP)
         spec.update(opts)
-        _sps[key] = world.make_sp(world.sp_conf(spec, [md or idp_metadata()]), config_class)
+        # md == '' : an SP without any metadata source at all
+        _sps[key] = world.make_sp(world.sp_conf(spec, [] if md == '' else [md or idp_metadata()]), config_class)
         clock.install()
     return _sps[key]
 
